@@ -6,7 +6,7 @@ folded (so drop flags and literal discriminants steer correctly); a condition on
 contradicts an earlier one on the same path prunes the path.  A back edge ends the path with
 kind 'loop'.  No solver is involved: feasibility is decided on syntactic identity of terms.
 """
-from .core import AnalysisError, const_val, callee_is_local, callee_path, callee_resolved, simplify
+from .core import AnalysisError, const_val, callee_is_local, callee_path, callee_resolved, simplify, subterms
 from . import pp
 
 STD_DISCR = {
@@ -336,9 +336,9 @@ class PathEnum:
                     continue
                 vals = [tv for tv, _ in targets]
                 for tv, tb in targets:
-                    if feasible(conds, d, ("eq", tv)):
+                    if feasible(conds, d, ("eq", tv), events):
                         self._walk(tb, dict(env), conds + [(d, ("eq", tv), ebb)], trace, events + [("cond", ebb, None, d, ("eq", tv))], onpath)
-                if feasible(conds, d, ("ne", tuple(vals))):
+                if feasible(conds, d, ("ne", tuple(vals)), events):
                     ob = t["otherwise"]
                     # an `otherwise` that is just `unreachable` is not a path
                     if fn.blocks[ob]["term"]["k"] == "unreachable" and not fn.blocks[ob]["stmts"]:
@@ -536,11 +536,60 @@ def fold_bin(op, a, b):
     return ("bin", op, a, b)
 
 
-def feasible(conds, term, c):
-    """Does condition c on `term` contradict an earlier condition on the *same* term?"""
+_VARIANT_KEEPING = (
+    "std::option::Option::<T>::as_ref", "std::option::Option::<T>::as_mut", "std::option::Option::<T>::as_deref",
+    "std::option::Option::<T>::as_deref_mut", "std::result::Result::<T, E>::as_ref", "std::result::Result::<T, E>::as_mut",
+)
+
+
+def _discr_subject(t):
+    """For discr(as_ref(&X)) / discr(as_mut(&mut X)) / discr(X): X.  These adapters keep the variant."""
+    if t[0] != "discr":
+        return None
+    x = t[1]
+    while True:
+        if x[0] in ("ref", "deref"):
+            x = x[1]
+        elif x[0] == "call" and x[1] in _VARIANT_KEEPING and len(x[2]) == 1:
+            x = x[2][0]
+        else:
+            return x
+
+
+def _touched_between(events, cond_term, subj):
+    """After the event that recorded the earlier condition on cond_term: is `&mut` to the subject (or to
+    something containing it) handed to a callee that may change its variant?"""
+    start = None
+    for i, e in enumerate(events):
+        if e[0] == "cond" and e[3] == cond_term:
+            start = i
+    if start is None:
+        return True
+    for e in events[start + 1:]:
+        if e[0] not in ("call", "inlined-call") or e[3] in _VARIANT_KEEPING:
+            continue
+        for a in e[4][2]:
+            x = a
+            if x[0] == "ref" and x[2]:
+                y = x[1]
+                while y[0] in ("ref", "deref"):
+                    y = y[1]
+                if y == subj or any(s == y for s in subterms(subj) if isinstance(s, tuple)):
+                    return True
+            elif x[0] in ("arg", "argv") and any(s == x for s in subterms(subj) if isinstance(s, tuple)):
+                return True
+    return False
+
+
+def feasible(conds, term, c, events=None):
+    """Does condition c on `term` contradict an earlier condition on the *same* term -- or, for the
+    discriminant of an Option/Result, on the same value seen through as_ref()/as_mut() with nothing in
+    between that could have changed it?"""
+    subj = _discr_subject(term) if events is not None else None
     for (t, c0, _bb) in conds:
         if t != term:
-            continue
+            if subj is None or t[0] != "discr" or _discr_subject(t) != subj or _touched_between(events, t, subj):
+                continue
         if c0[0] == "eq" and c[0] == "eq" and c0[1] != c[1]:
             return False
         if c0[0] == "eq" and c[0] == "ne" and c0[1] in c[1]:
